@@ -129,7 +129,12 @@ func genTCPConn(r *Rng, cfg []cfgKey, focus string) tcpConnSpec {
 			}
 		} else if r.Bool() {
 			sp.AKind = 9
-			sp.Chunks, sp.Coalesce = nil, false
+			if r.Chance(50) {
+				sp.Chunks, sp.Coalesce = nil, false
+			} else if len(sp.Chunks) == 0 {
+				// data after the address that cannot be read: it is drained (and counted once)
+				sp.Chunks = [][2]int{{[]int{1, 1000}[r.Intn(2)], 7}}
+			}
 		} else {
 			if len(sp.Chunks) == 0 {
 				sp.Chunks = [][2]int{{100, 9}, {50, 8}}
@@ -155,6 +160,12 @@ func genTCPConn(r *Rng, cfg []cfgKey, focus string) tcpConnSpec {
 			sp.ConnectOK = false
 		}
 		sp.Chunks, sp.Coalesce = nil, false
+	}
+	if sp.Kind == "honest" && sp.Corrupt == 0 && sp.ConnectOK && sp.Fin && !sp.TFinFirst && sp.AKind <= 3 && !sp.Validate && sel >= probeW+postW+dialW && (focus == "C02" && r.Chance(6) || r.Chance(1)) {
+		// a download far larger than the client's receive window to a client that starts reading
+		// late: the relay is over and the server has closed while most of it is still in its send buffer
+		sp.TOut = [2]int{400000 + r.Intn(3)*100000, int(r.U64() % 1000000)}
+		sp.SlowStartMs = 300
 	}
 	if sp.Kind != "honest" || sp.Corrupt != 0 || !sp.ConnectOK || sp.TFinFirst || sp.Fin || sp.AKind == 9 || (sp.AKind >= 20 && sp.AKind < 30 && sp.AKind != 21) || (sp.Validate && !tcpKindPublic(sp.AKind)) || sp.C < 0 {
 		sp.TLate = [2]int{}
@@ -266,6 +277,9 @@ func cTCPInto(ctx *Ctx, prop string, nCases int, shard0 int) {
 			ctx.Count(fmt.Sprintf("close:%d", ob.Close))
 			ctx.Count("kind:" + sp.Kind)
 			ctx.Count(fmt.Sprintf("akind:%d", sp.AKind))
+			if sp.SlowStartMs > 0 {
+				ctx.Count("late-reader-large-download")
+			}
 			classes[ob.Status] = true
 			ctx.NonTrivial(fmt.Sprintf("%+v", *sp))
 			tcpMonitors(ctx, prop, &j.spec, i, sp, ob, seenSalt)
@@ -391,6 +405,9 @@ func tcpMonitors(ctx *Ctx, prop string, cs *tcpCaseSpec, i int, sp *tcpConnSpec,
 	if ob.Status == "OK" {
 		_, payload, _ := clientWire(sp, 0)
 		tout := append(genBytes(sp.TOut[0], uint32(sp.TOut[1])), genBytes(sp.TLate[0], uint32(sp.TLate[1]))...)
+		if ob.Reset {
+			ctx.Monitor("C02/downstream-ends-with-reset", fmt.Sprintf("the relay completed (status OK) but the client's stream ended with a connection reset instead of end-of-stream after %d of %d bytes", ob.ClientLen, len(tout)), rep)
+		}
 		if !bytes.Equal(ob.TargetGot, payload) {
 			ctx.Monitor("C02/upstream-not-intact", fmt.Sprintf("target received %d bytes (cksum %d), client sent %d (cksum %d)", len(ob.TargetGot), cksum(ob.TargetGot), len(payload), cksum(payload)), rep)
 		}
